@@ -288,6 +288,29 @@ def check_world(prop, tier, seed, replay=None):
         violations.append((path, False))
         reported += 1
 
+    # 6b. every documented spelling of the expectation statements gives the same bounds / treatment of calls
+    spelling = None
+    if prop in ('C01', 'C03', 'C07'):
+        try:
+            sx = vlib.build_simple_harness('spelling', std='c++17')
+            out, errs_sp = vlib.run_noinput(sx)
+            rc = 1 if errs_sp else 0
+            err = errs_sp[0][1] if errs_sp else ''
+            lines_sp = [l for l in out if l.startswith(('PASS', 'FAIL', 'DONE'))]
+            bad_sp = [l for l in lines_sp if l.startswith('FAIL')]
+            spelling = dict(cases=len([l for l in lines_sp if l.startswith(('PASS', 'FAIL'))]), failed=len(bad_sp))
+            if bad_sp or rc != 0 or not any(l.startswith('DONE') for l in lines_sp):
+                path = vlib.write_replay(prop, tier, seed, 'spelling',
+                                         ['verdict violation', 'a documented spelling of REQUIRE/ALLOW/FORBID_CALL (C++14 form, variadic _V form, named, unnamed) '
+                                          'does not give the bounds / call treatment the property states',
+                                          'reproduce: g++ -std=c++17 -I/repo/include /verif/harness/spelling/h_spelling.cpp && ./a.out'],
+                                         (bad_sp or lines_sp[-5:]) + ([err] if rc != 0 else []))
+                violations.append((path, False))
+        except vlib.BuildError as e:
+            path = vlib.write_replay(prop, tier, seed, 'spelling-build',
+                                     ['verdict violation', 'a documented spelling of the expectation statements no longer compiles (harness/spelling/h_spelling.cpp)'],
+                                     str(e).split('\n')[-30:])
+            violations.append((path, False))
     # 7. evidence
     wall = time.time() - t0
     # a broken tie for which a concrete failing input was found is reported with that input only
@@ -313,7 +336,7 @@ def check_world(prop, tier, seed, replay=None):
              % (cfg['enums'], cfg['profiles']),
         samples=['\n'.join(scripts[i][2]) for i in ([0, len(scripts) // 2, len(scripts) - 1] if scripts else [])],
         exhaustive=False,
-        generator_mix=dict(gen_stats), outcome_histogram=dict(hist), notes=notes,
+        generator_mix=dict(gen_stats), outcome_histogram=dict(hist), notes=notes, spelling_family=spelling,
         harness_tree=vlib.repo_hash(),
     )
     vlib.write_evidence(prop, tier, seed, 'proof', cov,
